@@ -12,3 +12,5 @@ import TradingVerif.Props.C03
 #print axioms TV.rebalance_reaches
 #print axioms TV.rebalance_reaches_contracts
 #print axioms TV.rebalance_reaches_weights
+#print axioms TV.exec_closes_untargeted
+#print axioms TV.rebalance_closes_untargeted
